@@ -387,6 +387,36 @@ DIR *opendir(const char *path) {
     return real ? real(t) : NULL;
 }
 
+/* ---- threads created by the system under test ----
+ * The expander has no threads.  If a change gives it some, their interleaving is the one
+ * thing this simulator does not own (std::thread cannot be intercepted without a hook).
+ * What the shim can do: record that it happened, and start each such thread after a delay
+ * drawn from the host's seeded stream, so that "first to finish" differs between hosts
+ * instead of being the same lucky order everywhere.  Not a replayable schedule -- a
+ * divergence found this way is reported as such. */
+#include <pthread.h>
+struct sim_tramp { void *(*fn)(void *); void *arg; unsigned delay_us; };
+static void *sim_trampoline(void *p) {
+    struct sim_tramp t = *(struct sim_tramp *)p;
+    free(p);
+    if (t.delay_us) { struct timespec ts = { 0, (long)t.delay_us * 1000L }; syscall(SYS_nanosleep, &ts, NULL); }
+    return t.fn(t.arg);
+}
+static uint64_t g_thread_seq;
+int pthread_create(pthread_t *th, const pthread_attr_t *attr, void *(*fn)(void *), void *arg) {
+    init();
+    int (*real)(pthread_t *, const pthread_attr_t *, void *(*)(void *), void *) = REAL("pthread_create");
+    if (!real) return EAGAIN;
+    if (!g_in_expansion) return real(th, attr, fn, arg);
+    note_fs("call:pthread_create");
+    struct sim_tramp *t = malloc(sizeof *t);
+    if (!t) return real(th, attr, fn, arg);
+    t->fn = fn; t->arg = arg;
+    uint64_t k = __atomic_fetch_add(&g_thread_seq, 1, __ATOMIC_SEQ_CST);
+    t->delay_us = (unsigned)(splitmix64(g_entropy_seed * 0x9E3779B97F4A7C15ULL + 0x7468726561640000ULL + k) % 3000);
+    return real(th, attr, sim_trampoline, t);
+}
+
 /* ---- identity seam ---- */
 
 int gethostname(char *name, size_t len) {
